@@ -9,8 +9,3 @@ impl<A> ActorHandle<A> {
         &&& (self.detach_fn is Some ==> self.detach_fn->0.cap0() == self.join_fn.cap0())
     }
 }
-pub open spec fn spawned_one<P: Spawner<A>, A: Actor>(pre: &World, post: &World, t: int, retained: bool, info: LoopInfo) -> bool {
-    &&& spawned_here(pre, post, t) && alive_after::<P, A>(post, t, retained) && post.task_info[t] == info
-    &&& t == slot_task(info.slot)
-    &&& post.tasks.dom() =~= pre.tasks.dom().insert(t)
-}
